@@ -109,30 +109,30 @@ def main(prop, tier):
     violations, known_lines, guard = [], [], []
     failed = [r for r in results if r['status'] == 'FAILED']
     # counterexamples -> native replay, a few at a time
-    seen_oblig = set()
-    for r in failed:
+    # one violation per distinct obligation; the smallest failing document carries the witness
+    by_oblig = {}
+    for r in sorted(failed, key=lambda r: (len(byname[r['harness'].split('::')[-1]]['doc']), r['harness'])):
         h = byname[r['harness'].split('::')[-1]]
-        tests = kani_run.playback_failure(d, r['harness'], FLAGS) if len(seen_oblig) < 6 else []
         for fcheck in r['failed_checks']:
             oblig = 'linemap_kani :: %s :: %s' % (re.sub(r'_d\d+(_\d+)?$', '', h['name']), fcheck['description'])
-            where = fcheck['location']
-            t = next((t for t in tests if t['description'] == fcheck['description'] and t['native'].startswith('FAILED')), None)
-            key = (oblig, h['doc'])
-            if key in seen_oblig:
-                continue
-            seen_oblig.add(key)
-            known = next((k for k in kf.get('findings', []) if k.get('property') == prop and k.get('obligation') == oblig
-                          and (k.get('document') is None or k.get('document') == h['doc'])), None)
-            if known:
-                known_lines.append('%s (document %r)' % (known.get('what', oblig), h['doc']))
-                continue
-            wit = None
-            if t:
-                wit = {'kind': 'kani-playback', 'document': h['doc'], 'harness': h['name'], 'concrete_vals': t['concrete_vals'],
-                       'decoded': decode_vals(h['name'], t['concrete_vals']), 'test_source': t['test_source'], 'observed': t['native']}
-            path = write_replay(prop, oblig + ' :: document %r' % h['doc'], where, 'kani 0.68.0 / cbmc 6.11', json.dumps(fcheck), wit,
-                                './check %s --replay <this file>' % prop)
-            violations.append((path, wit is not None))
+            by_oblig.setdefault(oblig, []).append((r, h, fcheck))
+    for oblig, lst in by_oblig.items():
+        docs = [h['doc'] for (_, h, _) in lst]
+        known = next((k for k in kf.get('findings', []) if k.get('property') == prop and k.get('obligation') == oblig), None)
+        if known:
+            known_lines.append('%s (%d documents, e.g. %r)' % (known.get('what', oblig), len(docs), docs[0]))
+            continue
+        r, h, fcheck = lst[0]
+        tests = kani_run.playback_failure(d, r['harness'], FLAGS)
+        t = next((t for t in tests if t['description'] == fcheck['description'] and t['native'].startswith('FAILED')), None)
+        wit = None
+        if t:
+            wit = {'kind': 'kani-playback', 'document': h['doc'], 'harness': h['name'], 'concrete_vals': t['concrete_vals'],
+                   'decoded': decode_vals(h['name'], t['concrete_vals']), 'test_source': t['test_source'], 'observed': t['native'],
+                   'all_failing_documents': docs}
+        path = write_replay(prop, oblig, fcheck['location'], 'kani 0.68.0 / cbmc 6.11', json.dumps(fcheck), wit,
+                            './check %s --replay <this file>' % prop)
+        violations.append((path, wit is not None))
     ok = [r for r in results if r['status'] == 'SUCCESSFUL']
     for r in ok:
         if r.get('unsat_covers'):
